@@ -372,17 +372,17 @@ func CheckC06(e *Env) (int, error) {
 		"cold_start_cases":            coldCases,
 		"cold_start_seam_unavailable": seamUnavailable,
 		"calls_after_a_source_panic_that_never_returned_not_judged": postPanicHang,
-		"sim_steps_total":             tot.Reads,
-		"sim_time_note":               "the system has no clock; simulated time is counted in device reads",
-		"faults_fired":                tot.Fired,
-		"probes":                      tot.Probes,
-		"relaxations_applied":         tot.Relaxed,
-		"by_family":                   tot.ByFamily,
-		"by_language":                 tot.ByLang,
-		"by_word_count":               tot.ByN,
-		"max_reads_in_one_call":       tot.MaxReads,
-		"raw_violations":              tot.ViolCount,
-		"outcome_digest":              od.String(),
+		"sim_steps_total":       tot.Reads,
+		"sim_time_note":         "the system has no clock; simulated time is counted in device reads",
+		"faults_fired":          tot.Fired,
+		"probes":                tot.Probes,
+		"relaxations_applied":   tot.Relaxed,
+		"by_family":             tot.ByFamily,
+		"by_language":           tot.ByLang,
+		"by_word_count":         tot.ByN,
+		"max_reads_in_one_call": tot.MaxReads,
+		"raw_violations":        tot.ViolCount,
+		"outcome_digest":        od.String(),
 	}
 	if err := e.WriteEvidence("C06", "fault_enumeration", cov, []string{
 		"reference BIP39 encoder in /verif/ref over frozen word lists pinned by SHA-256 (validated against published vectors)",
